@@ -416,16 +416,34 @@ def interp_asym(e):
     return not torch.equal(Wl, Wr)
 
 
-def transcribed_dense(e):
+def transcribed_dense(e, chol=True, interp=True):
     """dense covariance of the *transcribed* sampler for the two known deviations (used only to attribute a
-    failure to a listed finding): Chol(upper=True) sampled as U U^T ; Interpolated sampled with W_l on both sides"""
+    failure to a listed finding): Chol(upper=True) sampled as U U^T ; Interpolated sampled with W_l on both sides.
+    The deviations can be switched on separately: a Chol(upper) buried in a generic leaf (AddedDiag, Sum, ...) is
+    sampled through that leaf's own decomposition of the dense matrix, i.e. correctly."""
     def f(x):
-        if x.get("cls") == "Chol" and x.get("upper"):
+        if chol and x.get("cls") == "Chol" and x.get("upper"):
             return {"cls": "Root", "root": x["t"]}
-        if x.get("cls") == "Interpolated":
+        if interp and x.get("cls") == "Interpolated":
             return dict(x, ri=x["li"], rv=x["lv"])
         return x
     return opbuild.dense(transform(e, f))
+
+
+def known_cause(e, cov, B, n, tol):
+    """which listed deviation (if any) explains the observed covariance"""
+    has_chol = contains(e, lambda x: x["cls"] == "Chol" and x.get("upper"))
+    has_asym = contains(e, interp_asym)
+    for ch, ip, cause in ((False, True, "interp-asymmetric"), (True, False, "chol-upper"), (True, True, "chol-upper")):
+        if (ch and not has_chol) or (ip and not has_asym and not ch):
+            continue
+        try:
+            At = transcribed_dense(e, chol=ch, interp=ip).reshape(B, n, n)
+        except Exception:
+            continue
+        if member_err(cov, At)[0] <= tol:
+            return cause if (has_chol or has_asym) else "unknown"
+    return None
 
 
 def spectrum_ok(e, simple=True):
@@ -612,13 +630,9 @@ def eval_case(case):
         res["cov_tol"] = tol
         if tol is not None and not cov_err <= tol:
             f = {"fail": "cov", "err": cov_err, "tol": tol, "member": worst, "members": B}
-            try:
-                At = transcribed_dense(e).reshape(B, n, n) if not dname else None
-                if At is not None and member_err(cov, At)[0] <= tol:
-                    f["cause"] = "chol-upper" if contains(e, lambda x: x["cls"] == "Chol" and x.get("upper")) else \
-                        ("interp-asymmetric" if contains(e, interp_asym) else "unknown")
-            except Exception:
-                pass
+            cause = known_cause(e, cov, B, n, tol) if not dname else None
+            if cause:
+                f["cause"] = cause
             if "cause" not in f and st[0]:
                 # CIQ runs MINRES on closures around op._matmul; operators whose _matmul returns its argument
                 # (Identity-like) are corrupted by MINRES' in-place updates (listed under property C11)
